@@ -35,10 +35,16 @@ def baseline_keys(job):
 def run_mutant(job):
     pid, m, root, base = job
     name = m["name"]
-    edits = m["edits"] if "edits" in m else [(m["file"], m["old"], m["new"])]
+    edits = m["edits"] if "edits" in m else ([(m["file"], m["old"], m["new"])] if "file" in m else [])
     tmp = tempfile.mkdtemp(prefix="cnvlint-mut-")
     try:
         _copy_sources(root, tmp)
+        if "patch" in m:
+            import subprocess
+            r = subprocess.run(["git", "apply", "--whitespace=nowarn", m["patch"]], cwd=tmp, capture_output=True, text=True)
+            if r.returncode != 0:
+                return (pid, name, "skipped", "seeded patch no longer applies: " + r.stderr.strip()[:120])
+            edits = []
         for rel, old, new in edits:
             path = os.path.join(tmp, rel)
             try:
@@ -93,7 +99,25 @@ def collect(pids):
             continue
         for m in getattr(mod, "MUTANTS", []):
             jobs.append((pid, m))
+        jobs += [(pid, m) for m in seeded_mutants(pid)]
     return jobs
+
+
+def seeded_mutants(pid):
+    """the independently seeded changes kept under /verif/seeded (written by sub-agents that saw only the property text): each one
+    recorded as detected by this property's check must keep being detected"""
+    import json
+    base = os.path.join(os.path.dirname(os.path.dirname(os.path.abspath(__file__))), "seeded")
+    try:
+        with open(os.path.join(base, "RESULTS.json")) as fh:
+            res = json.load(fh)
+    except FileNotFoundError:
+        return []
+    out = []
+    for sid, r in sorted(res.items()):
+        if pid in r.get("detected_by", []) and os.path.exists(os.path.join(base, sid, "patch.diff")):
+            out.append(dict(name=f"seeded change {sid} (independent sub-agent)", patch=os.path.join(base, sid, "patch.diff")))
+    return out
 
 
 def main(pids, jobs=16, root=None, verbose=False):
@@ -120,3 +144,25 @@ def main(pids, jobs=16, root=None, verbose=False):
             print(f"SELFTEST {pid} {status:16} {name}  {detail}")
     print(f"SELFTEST summary: {len(results)} mutants {counts} in {time.time() - t0:.1f}s")
     return 1 if bad else 0
+
+
+def run_for(pid, root=None, jobs=16):
+    """mutation self-validation of one property (thorough tier): returns a summary dict for the evidence file"""
+    root = root or repo_root()
+    muts = collect([pid])
+    if not muts:
+        return {"mutants": 0}
+    results = []
+    with cf.ProcessPoolExecutor(max_workers=jobs) as ex:
+        base = dict(ex.map(baseline_keys, [(pid, root)]))
+        keys = set(base.get(pid) or [])
+        for r in ex.map(run_mutant, [(p, m, root, keys) for p, m in muts]):
+            results.append(r)
+    counts = {}
+    for _, name, status, detail in results:
+        counts[status] = counts.get(status, 0) + 1
+    bad = [dict(mutant=name, status=status, detail=detail[:160]) for _, name, status, detail in results
+           if status in ("MISSED", "WRONG-CONSTRUCT", "FALSE-ALARM", "error", "undecided", "twin-undecided")]
+    return {"mutants": len(results), "by_status": counts, "breakers_killed": counts.get("killed", 0), "twins_silent": counts.get("silent", 0),
+            "skipped": counts.get("skipped", 0), "problems": bad,
+            "note": "each breaker is a one-edit copy of the current sources on which the quick check must report a new violation; twins are behaviour-preserving edits that must stay silent"}
